@@ -180,16 +180,15 @@ Definition akima_m1 (g vs : list Q) (idx : Z) : Q :=
   if (idx =? 0)%Z then 2 * akima_m2 g vs idx - akima_m3 g vs idx
   else if (idx =? 1)%Z then 2 * akima_m2a g vs idx - akima_m3 g vs idx
   else akima_m1a g vs idx.
+(* second chain of the repaired code (props/C15/fix_2.diff):  if idx == ngrid-3: ... elif idx == ngrid-2: ...
+   -- in the pinned commit this was a continuation of the first elif chain, so that on a 4-point grid
+   idx = 1 = ngrid-3 left m5 at its initial value (general class) or unbound (Interp1DAkima) *)
 Definition akima_m4 (g vs : list Q) (idx : Z) : Q :=
-  if (idx =? 0)%Z then akima_m4a g vs idx
-  else if (idx =? 1)%Z then akima_m4a g vs idx
-  else if (idx =? zlen g - 3)%Z then akima_m4a g vs idx
-  else if (idx =? zlen g - 2)%Z then 2 * akima_m3 g vs idx - akima_m2a g vs idx
+  if (idx =? zlen g - 3)%Z then akima_m4a g vs idx
+  else if (idx =? zlen g - 2)%Z then 2 * akima_m3 g vs idx - akima_m2 g vs idx
   else akima_m4a g vs idx.
 Definition akima_m5 (g vs : list Q) (idx : Z) : Q :=
-  if (idx =? 0)%Z then akima_m5a g vs idx
-  else if (idx =? 1)%Z then akima_m5a g vs idx
-  else if (idx =? zlen g - 3)%Z then 2 * akima_m4a g vs idx - akima_m3 g vs idx
+  if (idx =? zlen g - 3)%Z then 2 * akima_m4a g vs idx - akima_m3 g vs idx
   else if (idx =? zlen g - 2)%Z then 2 * akima_m4 g vs idx - akima_m3 g vs idx
   else akima_m5a g vs idx.
 
